@@ -491,6 +491,11 @@ func reportFootnotes(context *layoutContext, footnotesHeight pr.Float) {
 	if len(context.currentPageFootnotes) == 0 {
 		return
 	}
+	if context.inFootnoteArea {
+		// a multi-column box inside a footnote : reporting the footnote being
+		// laid out would push it to the next page for ever
+		return
+	}
 	// Report and count footnotes
 	reportedFootnotes := 0
 	for len(context.currentPageFootnotes) != 0 && context.currentFootnoteArea.MarginHeight() > footnotesHeight {
